@@ -17,8 +17,8 @@ SYMS = [U.S0, U.G[int]]
 SYM_KEYS = [U.S0, U.G]
 FACTORIES = [[U.F0a, U.f0b], [U.F1a, U.f1b]]
 FACTORY_TAGS = [['F0a', 'f0b'], ['F1a', 'f1b']]
-FNS = [U.g0, U.g1, U.g2]
-FN_ANNOS = [[0, 'int'], [0, 1, 'int'], ['int', 0]]  # symbol index or 'int'
+FNS = [U.g0, U.g1, U.g2, U.hA, U.hB]
+FN_ANNOS = [[0, 'int'], [0, 1, 'int'], ['int', 0], [0, 'int'], [1, 'int']]  # symbol index or 'int'
 ARGSETS = [(7,), (7, 8)]
 
 
@@ -40,6 +40,10 @@ def build_ops() -> list:
 		for fn in range(3):
 			for a in range(2):
 				ops.append(('invoke', k, fn, a))
+	# two closures sharing one qualified name (same-container and cross-container sequences)
+	for k in range(2):
+		for fn in (3, 4):
+			ops.append(('invoke', k, fn, 0))
 	return ops
 
 
